@@ -186,8 +186,13 @@ func c30Blocking(c *ev.Ctx, r *rand.Rand, caseN int) {
 			s.Release(c30m(2, 30))
 			select {
 			case ok := <-res:
-				d["returned"], d["after_release"] = ok, time.Since(rel).String()
+				d["returned"], d["after_release"], d["released_after"] = ok, time.Since(rel).String(), rel.Sub(start).String()
 				if !ok {
+					if rel.Sub(start) >= T-2*time.Millisecond {
+						// the harness itself was held up: its release came at or after the request's deadline,
+						// so "false" is what a correct semaphore answers - nothing can be concluded from this run
+						return rtInconclusive, d
+					}
 					return "waiting-request-refused-although-enough-was-released-in-time", d
 				}
 				if time.Since(rel) > margin {
